@@ -16,6 +16,8 @@ LEAN = os.path.join(ROOT, "lean")
 HARNESS = os.path.join(ROOT, "harness")
 DRIVER = os.path.join(LEAN, ".lake", "build", "bin", "stardriver")
 HBIN = os.path.join(HARNESS, "target", "debug", "verif-harness")
+# the same harness built with debug assertions and overflow checks off (profile.release)
+HBIN_REL = os.path.join(HARNESS, "target", "release", "verif-harness")
 ALLOWED_AXIOMS = {"propext", "Classical.choice", "Quot.sound"}
 ENV = dict(os.environ, CARGO_NET_OFFLINE="true", CARGO_TARGET_DIR=os.path.join(HARNESS, "target"))
 
@@ -126,11 +128,13 @@ def cargo_build():
         except OSError:
             pass
     rc, out, err = sh(["cargo", "build", "--offline"], cwd=HARNESS, timeout=3600)
+    if rc == 0:
+        rc, out, err = sh(["cargo", "build", "--offline", "--release"], cwd=HARNESS, timeout=3600)
     return rc, (out + err)[-4000:]
 
 
-def run_harness(what, tier, seed, timeout):
-    rc, out, err = sh([HBIN, what, tier, str(seed)], timeout=timeout)
+def run_harness(what, tier, seed, timeout, binary=None):
+    rc, out, err = sh([binary or HBIN, what, tier, str(seed)], timeout=timeout)
     cases, stats, other = [], {}, []
     for line in out.splitlines():
         if line.startswith("#stat "):
@@ -234,13 +238,24 @@ def main():
                     cases = cases_c + cases
                     for k, v in stats_c.items():
                         stats[k] = stats.get(k, 0) + v
+            # the same stream (quick size) against the implementation built without debug assertions
+            # and overflow checks; the requests carry a marker only in the reports
+            rc_r, cases_r, stats_r, _, err_r = run_harness(stream, "quick", seed, tlimit, HBIN_REL)
+            n_release, release_from = 0, len(cases)
+            if rc_r != 0:
+                problems.append(("correspondence", "stream %s (release profile): harness exited %d: %s" % (stream, rc_r, short(err_r))))
+            else:
+                n_release = len(cases_r)
+                release_from = len(cases)
+                cases = cases + cases_r
+                stats["release_profile.cases"] = n_release
             # corpus lines are requests only: re-ask the implementation through the replay op
             reqs = [c[0] for c in cases]
             rc, answers, derr = run_driver(reqs, tlimit)
             if rc != 0 or len(answers) != len(reqs):
                 problems.append(("correspondence", "stream %s: driver rc=%d produced %d/%d answers %s" % (stream, rc, len(answers), len(reqs), short(derr))))
                 continue
-            bad = [(r, a, m) for (r, a), m in zip(cases, answers) if a != m]
+            bad = [((("[release profile] " + r) if (n_release and i >= release_from) else r), a, m) for i, ((r, a), m) in enumerate(zip(cases, answers)) if a != m]
             for r, a, m in bad[:3]:
                 disagreements.append({"stream": stream, "request": r, "implementation": a, "model": m})
             if bad:
@@ -265,6 +280,19 @@ def main():
         oracle = {"ran": True, "tier": otier, "rc": rc, "stats": stats}
         if rc != 0:
             problems.append(("oracle", "oracle exited %d: %s" % (rc, short(err))))
+        # the oracle again (quick size) on the build without debug assertions and overflow checks
+        rc_r, _, stats_r, other_r, err_r = run_harness("oracle:" + pid, "quick", seed, tlimit, HBIN_REL)
+        oracle["release_profile"] = {"rc": rc_r, "stats": stats_r}
+        if rc_r != 0:
+            problems.append(("oracle", "oracle (release profile) exited %d: %s" % (rc_r, short(err_r))))
+        seen_fail = set(l for l in other if l.startswith("FAIL "))
+        for l in other_r:
+            if l.startswith("FAIL ") and l not in seen_fail:
+                parts = l.split(" ", 2)
+                if len(parts) == 3 and parts[2].startswith("{"):
+                    l = "%s %s {\"build_profile\": \"release (debug assertions and overflow checks off)\", %s" % (parts[0], parts[1], parts[2][1:])
+                other.append(l)
+        stats["oracle.cases"] = stats.get("oracle.cases", 0) + stats_r.get("oracle.cases", 0)
         known = json.load(open(os.path.join(ROOT, "known_findings.json")))
         open_findings = [k for k in known.get("findings", []) if k.get("status") == "open" and k.get("property") == pid]
         for line in other:
